@@ -11,7 +11,7 @@ namespace ALV.C17
 
 /-! ### enabledness -/
 
-theorem enabledF_eq (fc : FCfg) (fs : FState) (inv : AllF genView fs Ref) (t : Tid) :
+theorem enabledF_eq (fc : FCfg) (fs : FState) (inv : AllF genView fs (Ref fc)) (t : Tid) :
     enabledF fc fs t = enabled fc.cfg fs.base t := by
   cases t with
   | main => simp [enabledF, enabled, stepF, step, stepMainF]
@@ -37,7 +37,22 @@ theorem enabledF_eq (fc : FCfg) (fs : FState) (inv : AllF genView fs Ref) (t : T
           have hw : atW p = true := by simp [atW, hpc]
           have hne := hR.busy hw
           have ht := hR.todo
-          simp only [genView, core] at ht
+          have hfl := hR.fl
+          simp only [genView, core] at ht hfl
+          cases hf : a.fail with
+          | true =>
+            -- an iterable that raises: the coarse `write` step is a write or the exception
+            have hpf : p.fail = true := by rw [← hfl]; exact hf
+            simp only [stepPlayer, hp, hpc]
+            cases hh : p.todo with
+            | nil => simp only [hpf, if_true, Option.isSome_some]; split <;> (try split) <;> rfl
+            | cons c tl => simp only [Option.isSome_some]; split <;> (try split) <;> rfl
+          | false =>
+          have hne : a.buf ++ a.rest ≠ [] := by
+            rcases hne with h | h
+            · exact h
+            · rw [hf] at h; cases h
+          rw [hf, playChunks_false] at ht
           have hiso := chunksOf_nil_iff p.cs hR.pos (a.buf ++ a.rest)
           rw [← ht] at hiso
           have htne : p.todo ≠ [] := by
@@ -55,7 +70,7 @@ theorem enabledF_eq (fc : FCfg) (fs : FState) (inv : AllF genView fs Ref) (t : T
           · split <;> rfl
         all_goals (simp [stepPlayer, hp, hpc]; try (split <;> rfl))
 
-theorem terminalF_eq (fc : FCfg) (fs : FState) (inv : AllF genView fs Ref) :
+theorem terminalF_eq (fc : FCfg) (fs : FState) (inv : AllF genView fs (Ref fc)) :
     terminalF fc fs = terminal fc.cfg fs.base := by
   unfold terminalF terminal
   congr 1
@@ -116,7 +131,7 @@ theorem restSum_append (asm : List Asm) (a : Asm) :
 
 theorem phiF_stepMainF (fc : FCfg) (script : List Cmd) (fs fs' : FState)
     (h : stepMainF fc fs = some fs') (hr : Reach fc.cfg script fs.base)
-    (inv : AllF genView fs Ref) : phiF fc fs' < phiF fc fs := by
+    (inv : AllF genView fs (Ref fc)) : phiF fc fs' < phiF fc fs := by
   unfold stepMainF at h
   cases hs : stepMain fc.cfg fs.base with
   | none => rw [hs] at h; cases h
@@ -134,12 +149,13 @@ theorem phiF_stepMainF (fc : FCfg) (script : List Cmd) (fs fs' : FState)
         rw [List.getElem?_eq_none]; have := inv.1; omega
       have hsync : syncAsm fc s'.players fs.asm = fs.asm := by simp [syncAsm, hnone]
       rw [hsync]; omega
-    · have hsome : s'.players[fs.asm.length]? = some (freshPlayer a c) := by
+    · generalize (fc.cfg.fails.getD fs.base.players.length false) = f at hm
+      have hsome : s'.players[fs.asm.length]? = some (freshPlayer a c f) := by
         rw [hm, inv.1]; simp
       have hsync : syncAsm fc s'.players fs.asm =
-          fs.asm ++ [newAsm fc fs.asm.length (freshPlayer a c)] := by simp [syncAsm, hsome]
+          fs.asm ++ [newAsm fc fs.asm.length (freshPlayer a c f)] := by simp [syncAsm, hsome]
       rw [hsync, restSum_append]
-      have : (newAsm fc fs.asm.length (freshPlayer a c)).rest.length = a.length := by
+      have : (newAsm fc fs.asm.length (freshPlayer a c f)).rest.length = a.length := by
         simp [newAsm, freshPlayer]
       rw [this]
       rw [hpa] at hpend
@@ -148,7 +164,7 @@ theorem phiF_stepMainF (fc : FCfg) (script : List Cmd) (fs fs' : FState)
 
 theorem phiF_stepPlayerF (fc : FCfg) (script : List Cmd) (fs fs' : FState) (i : Nat)
     (h : stepPlayerF fc fs i = some fs') (hr : Reach fc.cfg script fs.base)
-    (inv : AllF genView fs Ref) : phiF fc fs' < phiF fc fs := by
+    (inv : AllF genView fs (Ref fc)) : phiF fc fs' < phiF fc fs := by
   obtain ⟨h1, _⟩ := sim_stepPlayerF fc fs fs' i h inv
   unfold phiF
   rcases h1 with ⟨h1, h2⟩ | ⟨h1, h2⟩
@@ -159,7 +175,7 @@ theorem phiF_stepPlayerF (fc : FCfg) (script : List Cmd) (fs fs' : FState) (i : 
   · rw [h1]; omega
 
 /-- **every step of every thread of the fine system decreases the rank** -/
-theorem phiF_step {fc : FCfg} {script : List Cmd} {fs fs' : FState} {t : Tid} (hnf : NoFail fc)
+theorem phiF_step {fc : FCfg} {script : List Cmd} {fs fs' : FState} {t : Tid} (hnf : Sound fc)
     (hpos : PosCs script) (hr : ReachF fc script fs) (h : stepF fc fs t = some fs') :
     phiF fc fs' < phiF fc fs := by
   obtain ⟨hb, inv⟩ := sim_reach hnf hpos hr
@@ -179,7 +195,7 @@ theorem reachF_runSchedF {fc : FCfg} {script : List Cmd} : ∀ (sched : List Tid
     | none => exact hr
     | some fs' => exact ih (ReachF.step hr hs)
 
-theorem runSchedF_phiF {fc : FCfg} {script : List Cmd} (hnf : NoFail fc) (hpos : PosCs script) :
+theorem runSchedF_phiF {fc : FCfg} {script : List Cmd} (hnf : Sound fc) (hpos : PosCs script) :
     ∀ (sched : List Tid) {fs : FState}, ReachF fc script fs → (runSchedF fc fs sched).2 = [] →
     sched.length + phiF fc (runSchedF fc fs sched).1 ≤ phiF fc fs := by
   intro sched
@@ -218,7 +234,7 @@ theorem runSchedF_append (fc : FCfg) : ∀ (a : List Tid) (fs : FState) (b : Lis
     | some fs' => rw [hs] at h; simp only; exact ih fs' b h
 
 /-- every fine run can be continued to a state where nobody is enabled -/
-theorem exists_maximalF {fc : FCfg} {script : List Cmd} (hnf : NoFail fc) (hpos : PosCs script) :
+theorem exists_maximalF {fc : FCfg} {script : List Cmd} (hnf : Sound fc) (hpos : PosCs script) :
     ∀ (n : Nat) (fs : FState), ReachF fc script fs → phiF fc fs ≤ n →
     ∃ ext, (runSchedF fc fs ext).2 = [] ∧ terminalF fc (runSchedF fc fs ext).1 = true := by
   intro n
